@@ -18,6 +18,7 @@ func init() {
 	register("C08", "cluster-settle-timeout-sole-instance", c08SettleTimeout)
 	register("C08", "cluster-settle-timeout-pair", c08SettleTimeout)
 	register("C08", "cluster-oversized-log-entries", c08Oversized)
+	multiplicity["C08/cluster-oversized-log-entries"] = 2
 	register("C08", "cluster-peer-stops", c08PeerStops)
 	register("C08", "cluster-peer-killed", c08PeerStops)
 }
@@ -415,7 +416,7 @@ func c08Oversized(s *sc) {
 	s.must(err, "sink")
 	defer sink.Close()
 	conf := Conf{Root: Route{Receiver: "r0", GroupBy: []string{"g"}, GW: gw, GI: clusterGI, RI: time.Hour},
-		Receivers: []Recv{{Name: "r0", Hooks: []Hook{{SendResolved: false}, {SendResolved: false}}}}}
+		Receivers: []Recv{{Name: "r0", Hooks: []Hook{{SendResolved: false}, {SendResolved: false}, {SendResolved: false}}}}}
 	a := startMember(s, sink, "am-a", nil, 10*time.Second, conf)
 	b := startMember(s, sink, "am-b", []*member{a}, 10*time.Second, conf)
 	ms := []*member{a, b}
@@ -426,31 +427,44 @@ func c08Oversized(s *sc) {
 	if !gossipHealthy(s, ms) {
 		return
 	}
-	const nAlerts = 120
-	now := time.Now() // young alerts: the group waits its full group_wait, so one flush holds the whole batch
+	// three groups x three integrations = nine oversized entries queued within a few milliseconds
+	const nAlerts = 90
+	groups := []string{"big1", "big2", "big3"}
+	now := time.Now() // young alerts: the groups wait their full group_wait, so one flush holds the whole batch
 	end := now.Add(10 * time.Minute)
 	var as []AlertIn
-	for i := 0; i < nAlerts; i++ {
-		as = append(as, AlertIn{Labels: map[string]string{"alertname": "A", "g": "big", "id": fmt.Sprintf("o%03d", i)}, StartsAt: &now, EndsAt: &end})
+	for _, g := range groups {
+		for i := 0; i < nAlerts; i++ {
+			as = append(as, AlertIn{Labels: map[string]string{"alertname": "A", "g": g, "id": fmt.Sprintf("%s-%03d", g, i)}, StartsAt: &now, EndsAt: &end})
+		}
 	}
 	tPost := time.Now()
 	postAll(s, ms, as)
-	eps := []string{"r0.w0", "r0.w1"}
-	delivered := func(reqs []Req, ep string) []Req {
+	eps := []string{"r0.w0", "r0.w1", "r0.w2"}
+	delivered := func(reqs []Req, ep, g string) []Req {
 		var out []Req
 		for _, r := range reqs {
-			if r.Name == ep && r.Msg.Status == "firing" && !r.Aborted && r.Code < 300 && r.Msg.GroupLabels["g"] == "big" {
+			if r.Name == ep && r.Msg.Status == "firing" && !r.Aborted && r.Code < 300 && r.Msg.GroupLabels["g"] == g {
 				out = append(out, r)
 			}
 		}
 		return out
 	}
-	all := func(reqs []Req) bool { return len(delivered(reqs, eps[0])) > 0 && len(delivered(reqs, eps[1])) > 0 }
+	all := func(reqs []Req) bool {
+		for _, ep := range eps {
+			for _, g := range groups {
+				if len(delivered(reqs, ep, g)) == 0 {
+					return false
+				}
+			}
+		}
+		return true
+	}
 	if !sink.WaitFor(tPost.Add(gw+slack), all) {
 		if sink.WaitFor(tPost.Add(gw+slack+late), all) {
 			s.inconclusive("first notification later than group_wait+%s", slack)
 		} else {
-			s.violate("cluster-no-notification", "no instance notified both integrations for the group of %d alerts within %s", nAlerts, gw+slack+late)
+			s.violate("cluster-no-notification", "no instance notified every integration for the three groups of %d alerts within %s", nAlerts, gw+slack+late)
 		}
 		return
 	}
@@ -458,19 +472,14 @@ func c08Oversized(s *sc) {
 	time.Sleep(peerTimeout + 1500*time.Millisecond)
 	reqs := sink.Reqs()
 	for _, ep := range eps {
-		ds := delivered(reqs, ep)
-		if len(ds[0].Msg.Alerts) != nAlerts {
-			s.inconclusive("the first flush did not hold the whole batch (%d of %d alerts)", len(ds[0].Msg.Alerts), nAlerts)
-			return
+		for _, g := range groups {
+			if ds := delivered(reqs, ep, g); len(ds[0].Msg.Alerts) != nAlerts {
+				s.inconclusive("the first flush did not hold the whole batch (%d of %d alerts)", len(ds[0].Msg.Alerts), nAlerts)
+				return
+			}
 		}
 	}
-	for _, ep := range eps {
-		if ds := delivered(reqs, ep); len(ds) != 1 {
-			s.violate("cluster-duplicate-notification", "a healthy pair (gossip probe fast, no faults) notified integration %s %d times for one unchanged group of %d alerts; the second came %.2fs after the first (the log entries of such a group travel as oversized gossip messages, two of them back to back)", ep, len(ds), nAlerts, ds[1].T.Sub(ds[0].T).Seconds())
-			return
-		}
-	}
-	// evidence that the scenario exercised the oversized path: the sender queued its two log entries there
+	// evidence that the scenario exercised the oversized path: the sender queued its log entries there
 	sent := 0.0
 	for _, m := range ms {
 		v, _ := m.in.Metric("alertmanager_oversized_gossip_message_sent_total", "key", "nfl")
@@ -479,8 +488,16 @@ func c08Oversized(s *sc) {
 		}
 	}
 	s.logf("oversized nfl messages sent by the notifying member: %v", sent)
-	if sent < 2 {
-		s.inconclusive("the log entries did not travel as oversized messages")
+	for _, ep := range eps {
+		for _, g := range groups {
+			if ds := delivered(reqs, ep, g); len(ds) != 1 {
+				s.violate("cluster-duplicate-notification", "a healthy pair (gossip probe fast, no faults) notified integration %s %d times for the unchanged group %s of %d alerts; the second came %.2fs after the first (the log entries of such groups travel as oversized gossip messages, nine of them back to back; the notifying member sent %v of them)", ep, len(ds), g, nAlerts, ds[1].T.Sub(ds[0].T).Seconds(), sent)
+				return
+			}
+		}
+	}
+	if sent < float64(len(eps)*len(groups)) {
+		s.inconclusive("the log entries did not all travel as oversized messages")
 		return
 	}
 	s.count("oversized-entries-exactly-once-per-integration")
